@@ -407,7 +407,10 @@ NonLeaf(h) ==
       (* a dictionary literal that writes a key twice: the last value counts *)
       (IF s = "Int" /\ Enabled("DupKey") THEN
           {Sub(Dct(<<StrC("k1"), Hole("Int", sp[1], ns, ss), StrC("k1"), Hole("Int", sp[2], ns, ss)>>), StrC("k1")) : sp \in Split2(r)} \cup
-          {Attr(Dct(<<StrC("k1"), Hole("Int", sp[1], ns, ss), StrC("k2"), IntC(1), StrC("k1"), Hole("Int", sp[2], ns, ss)>>), "k1") : sp \in Split2(r)}
+          {Attr(Dct(<<StrC("k1"), Hole("Int", sp[1], ns, ss), StrC("k2"), IntC(1), StrC("k1"), Hole("Int", sp[2], ns, ss)>>), "k1") : sp \in Split2(r)} \cup
+          \* 1 and True are the same key
+          {Sub(Dct(<<k[1], Hole("Int", sp[1], ns, ss), k[2], Hole("Int", sp[2], ns, ss)>>), IntC(1)) :
+              sp \in Split2(r), k \in {<<IntC(1), BoolC(TRUE)>>, <<BoolC(TRUE), IntC(1)>>}}
        ELSE {}) \cup
       (IF s = "Int" /\ Enabled("NegIdx") THEN
           {Sub(Tup(<<Hole("Int", sp[1], ns, ss), Hole("Int", sp[2], ns, ss)>>), UnOp("-", IntC(1))) :
